@@ -91,7 +91,8 @@ class Config(dict):
                     int_branches=True, build_key='pre-merge',
                     admins=(ADMIN,), project_leaders=(),
                     pr_author_options=None, send_bot_status=False,
-                    max_commit_diff=0, jira=False)
+                    max_commit_diff=0, jira=False, cred=False,
+                    password=None, log_level=None)
 
     def __init__(self, **kw):
         d = dict(self.DEFAULTS)
@@ -180,15 +181,50 @@ class World:
                     '[gc]\n\tauto = 0\n'
                     '[protocol "file"]\n\tallow = always\n')
         _import_berte()
-        if log_level is None:
-            import logging
-            logging.disable(logging.CRITICAL)
         self.remote = os.path.join(root, 'remote', SLUG + '.git')
+        self.password = config.password or ROBOT_PW
+        self.cred_url = None
+        self.log_records = None
+        self._setup_logging(config.log_level)
+        if config.cred:
+            from urllib.parse import quote_plus
+            self.cred_url = 'https://%s:%s@git.invalid/%s/%s.git' % (
+                ROBOT, quote_plus(self.password), OWNER, SLUG)
+            subprocess.run(['git', 'config', '--global',
+                            'url.%s.insteadOf' % self.remote, self.cred_url],
+                           check=True)
         self.berte = None
         self.tick = 0
         self._setup_host()
         self._wrap_host()
         self._patch()
+
+    def _setup_logging(self, level):
+        import logging
+        root = logging.getLogger()
+        for h in list(root.handlers):
+            if getattr(h, '_verif', False):
+                root.removeHandler(h)
+        if level is None:
+            logging.disable(logging.CRITICAL)
+            return
+        logging.disable(logging.NOTSET)
+        world = self
+
+        class Capture(logging.Handler):
+            _verif = True
+
+            def emit(self, record):
+                if world.log_records is not None:
+                    try:
+                        world.log_records.append(self.format(record))
+                    except Exception as e:   # formatting errors are data too
+                        world.log_records.append('FORMAT-ERROR %r' % e)
+        h = Capture()
+        h.setFormatter(logging.Formatter(
+            '%(levelname)s %(name)s: %(message)s'))
+        root.addHandler(h)
+        root.setLevel(getattr(logging, level))
 
     # -- host ---------------------------------------------------------------
     def _setup_host(self):
@@ -240,7 +276,9 @@ class World:
 
         def recording_cmd(command, **kwargs):
             log = self.cmd_log
-            if log is None:
+            if log is None or kwargs.get('cwd') == self.remote:
+                # not recording, or a command of the *mock host* (it uses
+                # bert_e.lib.git on the bare repository to answer API calls)
                 return self._real_cmd(command, **kwargs)
             idx = len(log)
             rec = {'i': idx, 'cmd': command}
@@ -298,6 +336,15 @@ class World:
                 return orig(self_, *a, **kw)
             wrapper.__name__ = name
             setattr(cls, name, wrapper)
+        orig_url = mock.Repository.git_url
+
+        def git_url(self_):
+            w = mock._verif_world
+            if w is not None and w.cred_url:
+                self_.get_git_url()
+                return w.cred_url
+            return orig_url.fget(self_)
+        mock.Repository.git_url = property(git_url)
         wrap(mock.PullRequestController, 'add_comment', 'comment')
         wrap(mock.PullRequestController, 'decline', 'decline')
         wrap(mock.PullRequestController, 'set_bot_status', 'bot_status')
@@ -438,7 +485,7 @@ class World:
             f.write(self.settings_text())
         settings = setup_settings(path)
         settings.update({
-            'robot_password': ROBOT_PW, 'jira_token': 'jt',
+            'robot_password': self.password, 'jira_token': 'jt',
             'disable_queues': not self.config.queue,
             'cmd_line_options': list(self.config.options),
             'backtrace': True, 'quiet': True, 'interactive': False,
